@@ -6,6 +6,8 @@ import (
 	"path/filepath"
 	"strings"
 	"testing"
+	"unicode"
+	"unicode/utf8"
 
 	"github.com/skx/evalfilter/v2/lexer"
 	"github.com/skx/evalfilter/v2/token"
@@ -264,12 +266,19 @@ func checkFragmentAt(t failer, col *evid.Collector, path []int, f fragment) {
 	}
 	// the same script after a complete, valid prelude (a function definition,
 	// a returning block) and before a valid epilogue
+	wi := 0
 	for _, wrap := range [][2]string{
 		{"function pre1(z1) { local y1; y1 = z1; return y1; }\n", ""},
 		{"v0 = 1; while (v0 > 5) { v0 = 2; }\n", "\nfunction post1() { return 1; } v7 = post1();"},
+		{"function pre2() { function in2(z2) { return z2; } return in2(1); }\n", ""},
+		{"function pre3() { local y3; function in3() { function in4() { return 4; } return in4(); } return in3(); }\nv0 = pre3();\n", ""},
 	} {
+		wi++
 		if inFn && strings.HasPrefix(f.text, "local") {
 			continue
+		}
+		if len(path) >= 2 && int(evid.Digest(script)%4) != wi-1 {
+			continue // deep compositions get one of the wrappers each, chosen by the script's digest
 		}
 		wc := &RejectCase{Prop: "C13", Kind: "fragment", Script: wrap[0] + script + wrap[1], Why: f.note + " (after a valid prelude)"}
 		if err := runReject(wc); err != nil {
@@ -344,6 +353,24 @@ func TestC13Random(t *testing.T) {
 			path = append(path, gen.Uniform(rt, "ctx", len(c13Contexts)))
 		}
 		f := c13Fragments[gen.Uniform(rt, "frag", len(c13Fragments))]
+		if gen.Uniform(rt, "genfrag", 6) == 0 {
+			// any character that is neither a letter, a decimal digit nor part of
+			// the language is illegal, wherever it stands
+			var r rune
+			for {
+				r = rune(rapid.IntRange(0x80, 0x2ffff).Draw(rt, "rune"))
+				if gen.Uniform(rt, "numeric", 2) == 0 {
+					nums := []rune("²³¹¼½¾ⅧⅣ①②⑩㈠൰፩〇〡𐄇")
+					r = nums[gen.Uniform(rt, "numrune", len(nums))]
+				}
+				if utf8.ValidRune(r) && !unicode.IsLetter(r) && !unicode.IsDigit(r) && r != '√' {
+					break
+				}
+			}
+			forms := []string{"%c", "q %c", "q + %c", "q%c", "%c q", "q%c = 1", "%c(1)"}
+			f = fragment{fmt.Sprintf(forms[gen.Uniform(rt, "runeform", len(forms))], r), false, fmt.Sprintf("illegal character U+%04X", r)}
+			col.Class("generated-illegal-character")
+		}
 		// keep only meaningful compositions (drop contexts that do not fit)
 		var fit []int
 		for _, ci := range path {
